@@ -10,7 +10,26 @@ from .arr import SArr, is_sym, HANDLED
 from .core import SR, SB
 
 
+class _NdMeta(type):
+    """`type(x) == np.ndarray` and `isinstance(x, np.ndarray)` inside a target module must also accept SArr"""
+
+    def __eq__(cls, other):
+        return other is _np.ndarray or other is SArr or other is cls
+
+    def __hash__(cls):
+        return hash(_np.ndarray)
+
+    def __instancecheck__(cls, inst):
+        return isinstance(inst, _np.ndarray)
+
+
+class NdarrayAlias(metaclass=_NdMeta):
+    pass
+
+
 class NPProxy:
+    ndarray = NdarrayAlias
+
     def __getattr__(self, k):
         return getattr(_np, k)
 
